@@ -26,6 +26,7 @@ ASSUMPTIONS = ['the energy-threshold flag is judged only when both energies are 
 
 TOL = 1e-10
 GUARD = 1e-6
+SHARED = {}
 
 
 def rand_opts(rng):
@@ -87,9 +88,13 @@ def check_case(ctx, case):
 
     probe = SiftProbe(S)
     got = None
+    # option dictionaries are passed the way a caller re-using them would: one long-lived envelope_opts object per
+    # interpolation method and one extrema_opts object per option set, shared by all calls of this process
+    eo_shared = SHARED.setdefault(('e', repr(sorted(eo.items()))), dict(eo))
+    xo_shared = SHARED.setdefault(('x', repr(sorted(xo.items()))), dict(xo))
     try:
         with probe, watchdog(60):
-            out, flag = S.get_next_imf(x.copy(), envelope_opts=dict(eo), extrema_opts=dict(xo), **opts)
+            out, flag = S.get_next_imf(x.copy(), envelope_opts=eo_shared, extrema_opts=xo_shared, **opts)
         got = 'ret'
     except WatchdogTimeout:
         ctx.count('watchdog')
@@ -107,6 +112,11 @@ def check_case(ctx, case):
         ctx.violation('exception:%s' % type(e).__name__, 'get_next_imf raised %s: %s' % (type(e).__name__, str(e)[:100]), case)
         return 'exc'
 
+    if eo_shared != eo or xo_shared != xo:
+        ctx.violation('option-dict-modified', 'get_next_imf changed an option dictionary passed to it (envelope_opts %s -> %s, extrema_opts %s -> %s); '
+                      'a caller re-using the dictionary gets different options on the next call' % (eo, eo_shared, xo, xo_shared), case)
+        SHARED.clear()
+        return 'mutated'
     cls = {'stop': 'stop', 'noext': 'noext', 'toolong': 'raise'}[m_out]
     if cls != 'raise':
         cls += '@1' if m_k == 1 else '@k>1'
